@@ -23,14 +23,16 @@ func GatewayClass(name, controller string) *gatewayv1.GatewayClass {
 
 // Listener is the part of a listener the drivers vary.
 type Listener struct {
-	Name     string
-	Port     int
-	Protocol string // HTTP | TCP
-	Hostname string
-	Kinds    []string // allowedRoutes.kinds
-	From     string   // Same | All | Selector | "" (nil)
-	Selector map[string]string
-	SelNil   bool // From: Selector without selector
+	Name      string
+	Port      int
+	Protocol  string // HTTP | TCP
+	Hostname  string
+	Kinds     []string // allowedRoutes.kinds
+	KindGroup *string  // group of every kinds entry (nil: not set)
+	Exprs     []metav1.LabelSelectorRequirement
+	From      string // Same | All | Selector | "" (nil)
+	Selector  map[string]string
+	SelNil    bool // From: Selector without selector
 	NoAllowed bool // allowedRoutes nil
 }
 
@@ -47,13 +49,18 @@ func Gateway(ns, name, class string, listeners []Listener) *gatewayv1.Gateway {
 		if !l.NoAllowed {
 			ar := &gatewayv1.AllowedRoutes{}
 			for _, k := range l.Kinds {
-				ar.Kinds = append(ar.Kinds, gatewayv1.RouteGroupKind{Kind: gatewayv1.Kind(k)})
+				rk := gatewayv1.RouteGroupKind{Kind: gatewayv1.Kind(k)}
+				if l.KindGroup != nil {
+					g := gatewayv1.Group(*l.KindGroup)
+					rk.Group = &g
+				}
+				ar.Kinds = append(ar.Kinds, rk)
 			}
 			if l.From != "" {
 				from := gatewayv1.FromNamespaces(l.From)
 				ar.Namespaces = &gatewayv1.RouteNamespaces{From: &from}
 				if l.From == "Selector" && !l.SelNil {
-					ar.Namespaces.Selector = &metav1.LabelSelector{MatchLabels: l.Selector}
+					ar.Namespaces.Selector = &metav1.LabelSelector{MatchLabels: l.Selector, MatchExpressions: l.Exprs}
 				}
 			}
 			gl.AllowedRoutes = ar
